@@ -48,8 +48,9 @@ def obligations(res):
         "compared in Coq with the forecast of the exported grammar",
         "non-recursive protocol grammars only (recursion through non-message nonterminals makes the model give up: code 5, counted); open-ended repetitions "
         "are unbounded in the model, capped at nodes.MAX_REPETITIONS (20) in the code: histories explored are shorter",
-        "completeness is not judged for the empty history (predict() takes a shortcut there and never reports a complete tree); slicing to a subset of "
-        "parties (slice_parties / PacketTruncator) is exercised only through grammars whose messages involve two or three parties, not by slicing",
+        "completeness is not judged for the empty history (predict() takes a shortcut there and never reports a complete tree); slicing: 30% of the "
+        "generated grammars are sliced to a subset of parties with the real slice_parties() first -- the forecast must then be exact for the SLICED "
+        "grammar (what slicing itself should yield is not judged)",
         "histories are built the way the search does it: the option's mounting path is taken and the message node fuzzed into the collapsed history tree",
     ]
 
@@ -167,6 +168,17 @@ def gen_worker(args):
         try:
             fan = Fandango(spec, use_stdlib=False, use_cache=False)
             g = fan.grammar
+            sliced = None
+            if rng.random() < 0.3:
+                # the spec sliced to a subset of parties (as `fandango ... --party` does): the forecast must be exact for the sliced grammar
+                from fandango.language.parse.slice_parties import slice_parties
+                sliced = rng.choice([{"Fuzzer"}, {"Extern"}, {"Fuzzer", "Third"}, {"Extern", "Third"}])
+                slice_parties(g, set(sliced), ignore_receivers=True)
+                from fandango.language.symbols import NonTerminal as _NT
+                if _NT("<start>") not in g.rules:
+                    res.bump("sliced_away_start")
+                    continue
+                res.bump("sliced_grammar")
             rx = c15.RuleExport(g, [], set(names))
             fc = PacketForecaster(g)
         except Exception as e:
@@ -185,8 +197,9 @@ def gen_worker(args):
         for hist, opts, complete in records:
             judged_complete = complete if hist else None
             terms.append((rx.term(), hist, opts, complete))
-            infos.append({"spec": spec.split("class Fuzzer")[0], "history": hist, "offered": opts, "reported_complete": complete})
-            res.count(("forecast", spec, tuple(hist)), nontrivial=len(hist) >= 1)
+            infos.append({"spec": spec.split("class Fuzzer")[0], "sliced_to": sorted(sliced) if sliced else None, "history": hist, "offered": opts,
+                          "reported_complete": complete})
+            res.count(("forecast", spec, tuple(sorted(sliced)) if sliced else None, tuple(hist)), nontrivial=len(hist) >= 1)
             res.bump("history_len_%d" % len(hist))
     if infos:
         res.sample(infos[min(len(infos) - 1, 3)])
